@@ -164,6 +164,27 @@ impl NameResolution {
         hir_table.fresh_local(name)
     }
 
+    /// Introduces one binder of a pattern or parameter list. `group` holds the names that
+    /// pattern or list has bound so far: no scoping rule orders two binders of one group,
+    /// so a repeated name is an error rather than "the last one wins".
+    fn bind(
+        &mut self,
+        name: &ast::AstIdent,
+        group: &mut HashSet<String>,
+        env: &mut ResolveLocalEnv,
+        hir_table: &mut HirTable,
+    ) -> hir::LocalId {
+        if !group.insert(name.0.clone()) {
+            self.error(format!(
+                "identifier {} is bound more than once in the same pattern or parameter list",
+                name.0
+            ));
+        }
+        let local_id = self.fresh_name(&name.0, hir_table);
+        env.add(name, local_id);
+        local_id
+    }
+
     fn constructor_path_for(
         &mut self,
         path: &ast::Path,
@@ -548,10 +569,9 @@ impl NameResolution {
         // Each parameter slot keeps the id minted for it: looking the name up again would
         // give every slot of a repeated name the id of its last occurrence.
         let mut param_ids = Vec::with_capacity(params.len());
+        let mut group = HashSet::new();
         for param in params {
-            let local_id = self.fresh_name(&param.0.0, hir_table);
-            env.add(&param.0, local_id);
-            param_ids.push(local_id);
+            param_ids.push(self.bind(&param.0, &mut group, &mut env, hir_table));
         }
         let tparams = type_param_set(generics);
         let new_params = params
@@ -942,10 +962,17 @@ impl NameResolution {
                 astptr,
             } => {
                 let mut closure_env = env.enter_scope();
+                let mut group = HashSet::new();
                 let new_params = params
                     .iter()
                     .map(|param| {
-                        self.resolve_closure_param(param, &mut closure_env, ctx, hir_table)
+                        self.resolve_closure_param(
+                            param,
+                            &mut group,
+                            &mut closure_env,
+                            ctx,
+                            hir_table,
+                        )
                     })
                     .collect();
                 let new_body_expr = self.resolve_expr(body, &mut closure_env, ctx, hir_table);
@@ -966,7 +993,7 @@ impl NameResolution {
                 astptr,
             } => {
                 let new_value = self.resolve_expr(value, env, ctx, hir_table);
-                let new_pat = self.resolve_pat(pat, env, ctx, hir_table);
+                let new_pat = self.resolve_pat(pat, &mut HashSet::new(), env, ctx, hir_table);
                 let new_annotation = annotation.as_ref().map(|t| {
                     self.lower_type_expr(t, &HashSet::new(), ctx.current_package, ctx.imports)
                 });
@@ -986,7 +1013,13 @@ impl NameResolution {
                     .iter()
                     .map(|arm| {
                         let mut arm_env = env.enter_scope();
-                        let new_pat = self.resolve_pat(&arm.pat, &mut arm_env, ctx, hir_table);
+                        let new_pat = self.resolve_pat(
+                            &arm.pat,
+                            &mut HashSet::new(),
+                            &mut arm_env,
+                            ctx,
+                            hir_table,
+                        );
                         let new_body = self.resolve_expr(&arm.body, &mut arm_env, ctx, hir_table);
                         hir::Arm {
                             pat: new_pat,
@@ -1143,6 +1176,7 @@ impl NameResolution {
     fn resolve_pat(
         &mut self,
         pat: &ast::Pat,
+        group: &mut HashSet<String>,
         env: &mut ResolveLocalEnv,
         ctx: &ResolutionContext,
         hir_table: &mut HirTable,
@@ -1169,8 +1203,7 @@ impl NameResolution {
                 )
             }
             ast::Pat::PVar { name, astptr } => {
-                let newname = self.fresh_name(&name.0, hir_table);
-                env.add(name, newname);
+                let newname = self.bind(name, group, env, hir_table);
                 self.alloc_pat_with_ptr(
                     hir_table,
                     *astptr,
@@ -1263,7 +1296,7 @@ impl NameResolution {
             } => {
                 let new_args = args
                     .iter()
-                    .map(|arg| self.resolve_pat(arg, env, ctx, hir_table))
+                    .map(|arg| self.resolve_pat(arg, group, env, ctx, hir_table))
                     .collect();
                 let constructor = self.normalize_constructor_path(constructor, ctx);
                 self.alloc_pat_with_ptr(
@@ -1285,7 +1318,7 @@ impl NameResolution {
                     .map(|(fname, pat)| {
                         (
                             HirIdent::name(&fname.0),
-                            self.resolve_pat(pat, env, ctx, hir_table),
+                            self.resolve_pat(pat, group, env, ctx, hir_table),
                         )
                     })
                     .collect();
@@ -1310,7 +1343,7 @@ impl NameResolution {
             ast::Pat::PTuple { pats, astptr } => {
                 let new_pats = pats
                     .iter()
-                    .map(|pat| self.resolve_pat(pat, env, ctx, hir_table))
+                    .map(|pat| self.resolve_pat(pat, group, env, ctx, hir_table))
                     .collect();
                 self.alloc_pat_with_ptr(hir_table, *astptr, hir::Pat::PTuple { pats: new_pats })
             }
@@ -1616,12 +1649,12 @@ impl NameResolution {
     fn resolve_closure_param(
         &mut self,
         param: &ast::ClosureParam,
+        group: &mut HashSet<String>,
         env: &mut ResolveLocalEnv,
         ctx: &ResolutionContext,
         hir_table: &mut HirTable,
     ) -> hir::ClosureParam {
-        let new_name = self.fresh_name(&param.name.0, hir_table);
-        env.add(&param.name, new_name);
+        let new_name = self.bind(&param.name, group, env, hir_table);
         hir::ClosureParam {
             name: new_name,
             ty: param.ty.as_ref().map(|t| {
